@@ -14,7 +14,7 @@ from typing import List, Optional, Tuple
 
 from ..astutil import Defs
 from ..cfg import cfg_of, flag_paths
-from ..core import AnalysisError, FuncInfo, attr_chain, kwarg, short, walk_no_nested, walk_stmts
+from ..core import AnalysisError, FuncInfo, attr_chain, cshort, kwarg, short, walk_no_nested, walk_stmts
 from ..sites import Resolver, all_sites, comp_of, is_bool_expr, same_elements_of
 from . import nameres
 
@@ -283,7 +283,7 @@ def _mask(ctx) -> None:
         problems = []
         r = s.body[-1]
         if not (isinstance(r, ast.Return) and isinstance(r.value, ast.Call) and attr_chain(r.value.func) == ["self", "copy"]
-                and r.value.args and short(r.value.args[0]) == f"(self[x] for x in {key})"):
+                and r.value.args and cshort(r.value.args[0]) == f"(self[_0] for _0 in {key})"):
             problems.append(f"index branch returns `{short(r, 70)}`, expected self.copy((self[x] for x in {key}), name=self._name)")
         else:
             nm = kwarg(r.value, "name")
